@@ -134,7 +134,7 @@ impl Property for C01 {
         ]
     }
     fn cases(&self, tier: Tier) -> u64 {
-        tier.pick(150_000, 4_000_000)
+        tier.pick(600_000, 6_000_000)
     }
     fn strategy(&self, tier: Tier) -> BoxedStrategy<History> {
         history_strategy(cfg(tier, 4))
@@ -158,7 +158,7 @@ impl Property for C02 {
         ]
     }
     fn cases(&self, tier: Tier) -> u64 {
-        tier.pick(150_000, 4_000_000)
+        tier.pick(600_000, 6_000_000)
     }
     fn strategy(&self, tier: Tier) -> BoxedStrategy<History> {
         history_strategy(cfg(tier, 9))
